@@ -39,7 +39,9 @@ pub const ENERGY_RATE_UNITS: [EnergyRateUnit; 5] = [
 /// the distance unit an energy rate is "per", by the unit's name (not the library's `associated_distance_unit`)
 pub fn rate_distance_unit(u: &EnergyRateUnit) -> DistanceUnit {
     match u {
-        EnergyRateUnit::GallonsGasolinePerMile | EnergyRateUnit::GallonsDieselPerMile | EnergyRateUnit::KilowattHoursPerMile => DistanceUnit::Miles,
+        EnergyRateUnit::GallonsGasolinePerMile
+        | EnergyRateUnit::GallonsDieselPerMile
+        | EnergyRateUnit::KilowattHoursPerMile => DistanceUnit::Miles,
         EnergyRateUnit::KilowattHoursPerKilometer => DistanceUnit::Kilometers,
         EnergyRateUnit::KilowattHoursPerMeter => DistanceUnit::Meters,
     }
@@ -49,7 +51,9 @@ pub fn rate_energy_unit(u: &EnergyRateUnit) -> EnergyUnit {
     match u {
         EnergyRateUnit::GallonsGasolinePerMile => EnergyUnit::GallonsGasoline,
         EnergyRateUnit::GallonsDieselPerMile => EnergyUnit::GallonsDiesel,
-        EnergyRateUnit::KilowattHoursPerMile | EnergyRateUnit::KilowattHoursPerKilometer | EnergyRateUnit::KilowattHoursPerMeter => EnergyUnit::KilowattHours,
+        EnergyRateUnit::KilowattHoursPerMile
+        | EnergyRateUnit::KilowattHoursPerKilometer
+        | EnergyRateUnit::KilowattHoursPerMeter => EnergyUnit::KilowattHours,
     }
 }
 
